@@ -1,4 +1,5 @@
 #![allow(dead_code)]
+mod backends;
 mod crash;
 mod exec;
 mod framework;
